@@ -196,6 +196,33 @@ def run_shard(item):
         except Exception as e:
             res.violation('C15|p8file|raise|%s' % type(e).__name__, 'writing/reading a .p8 holding every byte raised %r' % (e,), case)
             return res
+        # the same text when the cart is pulled in by another cart's #include (whole, and one tab of it)
+        import os
+        import shutil
+        import tempfile
+        from pico8.game import file as p8file
+        d = tempfile.mkdtemp(prefix='c15inc_')
+        try:
+            open(os.path.join(d, 'inc.p8'), 'wb').write(raw)
+            head = b'pico-8 cartridge // http://www.pico-8.com\nversion 33\n__lua__\n'
+            for sel in (b'', b':0'):
+                open(os.path.join(d, 'main.p8'), 'wb').write(head + b'#include inc.p8' + sel + b'\n')
+                res.evaluations += 1
+                try:
+                    inc = b''.join(p8file.from_file(os.path.join(d, 'main.p8')).lua.to_lines())
+                except Exception as e:
+                    res.violation('C15|p8file|included|raise|%s' % type(e).__name__,
+                                  'loading a cart that #includes the .p8 holding every byte raised %r' % (e,), case)
+                    break
+                if inc != code:
+                    a_l, b_l = code.split(b'\n'), inc.split(b'\n')
+                    k = next((i for i in range(min(len(a_l), len(b_l))) if a_l[i] != b_l[i]), min(len(a_l), len(b_l)))
+                    res.violation('C15|p8file|included|mismatch',
+                                  'a .p8 read through #include inc.p8%s gives line %d as %r, the file says %r' % (
+                                      sel.decode(), k, b_l[k] if k < len(b_l) else None, a_l[k] if k < len(a_l) else None), case)
+                    break
+        finally:
+            shutil.rmtree(d, ignore_errors=True)
         if back != code:
             src_l = code.split(b'\n')
             got_l = back.split(b'\n')
